@@ -1,4 +1,6 @@
 import RTA.Lemmas.FpSound
+import RTA.Lemmas.FpSoundEq
+import RTA.Lemmas.FpSoundEqExample
 /-! # C01 — the fixed-priority RTAs are safe for every legal schedule
 
 Spec: `RTA/Spec/Sched.lean` — discrete-time schedules on a dedicated unit-speed processor;
@@ -61,5 +63,79 @@ theorem offset_below_busy_window_bound (s : Sys) (pr : ℕ → ℕ) (i : ℕ) (t
     (j : ℕ) (hj : j < s.n) (hji : s.task j = i) (t0 : ℕ) (hq : J.Quiet s (hepFP s pr) j t0)
     (ht0 : t0 ≤ s.arr j) (hmax : ∀ t, t0 < t → t ≤ s.arr j → ¬ J.Quiet s (hepFP s pr) j t) :
     s.arr j - t0 < L := fp_offset_lt_L s pr i tua others B hS L hL hfix j hj hji t0 hq ht0 hmax
+
+/-! ## Several tasks on one priority level
+
+The crate documents its `interference` parameter as the set of higher-**or-equal**-priority
+tasks.  `FpEqSetting` (in `Lemmas/FpSoundEq.lean`) drops the assumption that task priorities
+are distinct: the job-level order `hepFPe` is "strictly higher task priority, or the same
+priority level and released no later"; equal-priority jobs released at the same instant are
+mutually higher-or-equal, so the schedule may break such ties arbitrarily.  `others` bounds
+the workload of all other tasks of higher or equal priority; blocking is due to strictly
+lower-priority tasks only.  `distinct_priorities_are_a_special_case` shows that every
+setting of the theorems above is one of these, so the four theorems below subsume them. -/
+
+theorem fully_preemptive_safe_equal_priorities (s : Sys) (pr : ℕ → ℕ) (i : ℕ) (tua : RB)
+    (others : List RB) (hS : FpEqSetting s pr i tua others 0) (hwf : tua.ArrWF) (hex : tua.Exact)
+    (ho : OthersOK others) (limit R : ℕ) (hR : fpPreemptive tua others limit = .ok R) :
+    ∀ j, j < s.n → s.task j = i → MeetsBound s j R :=
+  fpe_preemptive_sound s pr i tua others hS hwf hex ho limit R hR
+
+theorem fully_nonpreemptive_safe_equal_priorities (s : Sys) (pr : ℕ → ℕ) (i : ℕ) (a : Arr) (C : ℕ)
+    (others : List RB) (B : ℕ)
+    (hS : FpEqSetting s pr i (.rbf a (.scalar C)) others B) (hwf : a.WF) (hex : a.Exact)
+    (ho : OthersOK others)
+    (hcnt : ∀ t d, cntOf s (fun x => x = i) t (t + d) ≤ a.N d)
+    (hown : ∀ j, j < s.n → s.task j = i → s.cost j ≤ C ∧ ∀ x, 1 ≤ x → x < s.cost j → s.np j x)
+    (limit R : ℕ) (hR : fpNonpreemptive a C B others limit = .ok R) :
+    ∀ j, j < s.n → s.task j = i → MeetsBound s j R :=
+  fpe_nonpreemptive_sound s pr i a C others B hS hwf hex ho hcnt hown limit R hR
+
+theorem limited_preemptive_safe_equal_priorities (s : Sys) (pr : ℕ → ℕ) (i : ℕ) (a : Arr)
+    (C last : ℕ) (others : List RB)
+    (B : ℕ) (hS : FpEqSetting s pr i (.rbf a (.scalar C)) others B) (hwf : a.WF) (hex : a.Exact)
+    (ho : OthersOK others) (hlast1 : 1 ≤ last) (hlastC : last ≤ C)
+    (hcnt : ∀ t d, cntOf s (fun x => x = i) t (t + d) ≤ a.N d)
+    (hown : ∀ j, j < s.n → s.task j = i → s.cost j ≤ C ∧
+      ∀ x, max 1 (s.cost j - (last - 1)) ≤ x → x < s.cost j → s.np j x)
+    (limit R : ℕ) (hR : fpLimited a C last B others limit = .ok R) :
+    ∀ j, j < s.n → s.task j = i → MeetsBound s j R :=
+  fpe_limited_sound s pr i a C last others B hS hwf hex ho hlast1 hlastC hcnt hown limit R hR
+
+theorem floating_nonpreemptive_safe_equal_priorities (s : Sys) (pr : ℕ → ℕ) (i : ℕ) (tua : RB)
+    (others : List RB) (B : ℕ)
+    (hS : FpEqSetting s pr i tua others B) (hwf : tua.ArrWF) (hex : tua.Exact) (ho : OthersOK others)
+    (limit R : ℕ) (hR : fpFloating tua B others limit = .ok R) :
+    ∀ j, j < s.n → s.task j = i → MeetsBound s j R :=
+  fpe_floating_sound s pr i tua others B hS hwf hex ho limit R hR
+
+/-- every distinct-priority setting (job order within a task = release order) is an
+equal-priorities setting: the theorems of this section subsume the first four -/
+theorem distinct_priorities_are_a_special_case (s : Sys) (pr : ℕ → ℕ) (i : ℕ) (tua : RB)
+    (others : List RB) (B : ℕ) (hS : FpSetting s pr i tua others B) :
+    FpEqSetting s pr i tua others B := hS.toEq
+
+/-- the busy window of any job of the task is shorter than the analysis' `L`, also with
+equal priorities -/
+theorem offset_below_busy_window_bound_equal_priorities (s : Sys) (pr : ℕ → ℕ) (i : ℕ) (tua : RB)
+    (others : List RB) (B : ℕ)
+    (hS : FpEqSetting s pr i tua others B) (L : ℕ) (hL : 0 < L)
+    (hfix : B + sumNeed others L + tua.need L ≤ L)
+    (j : ℕ) (hj : j < s.n) (hji : s.task j = i) (t0 : ℕ) (hq : J.Quiet s (hepFPe s pr) j t0)
+    (ht0 : t0 ≤ s.arr j) (hmax : ∀ t, t0 < t → t ≤ s.arr j → ¬ J.Quiet s (hepFPe s pr) j t) :
+    s.arr j - t0 < L := fpe_offset_lt_L s pr i tua others B hS L hL hfix j hj hji t0 hq ht0 hmax
+
+/-- non-vacuity of the equal-priorities theorems: two DIFFERENT tasks on one priority level
+release a unit job each at time 0, the schedule serves the other task first (a tie broken
+against the task under analysis); the setting is an `FpEqSetting`, the analysis returns
+`Ok(2)`, every job of the task meets it — and the bound is attained (1 is exceeded) -/
+theorem equal_priorities_nonvacuous :
+    FpEqSetting FpEqExample.eqSys FpEqExample.eqPr 0 FpEqExample.tua [FpEqExample.tua] 0 ∧
+    FpEqExample.eqPr 0 = FpEqExample.eqPr 1 ∧
+    fpPreemptive FpEqExample.tua [FpEqExample.tua] 100 = .ok 2 ∧
+    (∀ j, j < FpEqExample.eqSys.n → FpEqExample.eqSys.task j = 0 → MeetsBound FpEqExample.eqSys j 2) ∧
+    ¬ MeetsBound FpEqExample.eqSys 0 1 :=
+  ⟨FpEqExample.eqSys_setting, rfl, FpEqExample.eqSys_result, FpEqExample.eqSys_meets,
+    FpEqExample.eqSys_attained.1⟩
 
 end RTA.C01
